@@ -483,8 +483,10 @@ theorem descends_wrappers (o : Options) (F : Ty → Ty) (hF : Descends o F) :
    Lemmas.C16.descends_of_option o F hF, fun name => Lemmas.C16.descends_of_newtype o name F hF,
    fun G hG => Lemmas.C16.descends_comp o F G hF hG⟩
 
-/-- `Option` / newtypes alone do NOT descend — and need not: `struct W(Option<Box<W>>)` is traced to an error by the
-budget, not by the depth limit -/
+/-- `Option` / newtypes alone do NOT descend: a definition that recurses through them only, `struct W(Option<Box<W>>)`,
+is invisible to the depth limit.  (An earlier version of this comment said such a type "is traced to an error by the
+budget"; that was false of the crate — one pass never returned, stack overflow.  Repo fix aaf3edc counts these wrappers;
+`Props/C16Rec.lean: fromTypeG_wrapper_recursion_is_error`.) -/
 example : ¬ Descends {} (fun t => .option t) := by
   intro h
   have := (h .bool "$.a.a.a.a.a.a.a.a.a.a.a.a.a.a.a.a.a.a.a.a" (by decide)).1
